@@ -116,13 +116,14 @@ class RemoteServer():
             else:
                 logger.debug('Waiting for the RemoteWorker object...')
                 try:
-                    child = recv_msg(cli, { '_socket': cli, '_reset_sigterm_hnd': True }, comment='server: remote worker')
+                    child = recv_msg(cli, { '_socket': cli, '_reset_sigterm_hnd': True, '_registry': self.children }, comment='server: remote worker')
                 except ConnectionClosedError:
                     logger.info('Client disconnected before child was successfully created')
                     cli.close()
                     return True
 
-                self.children.append(child)
+                if not any(c is child for c in self.children): # normally the child registers itself as soon as it exists
+                    self.children.append(child)
         else:
             result = True
             context = recv_msg(cli, comment='server: context')
